@@ -130,6 +130,9 @@ func (s *Scenario) addKeyManager(rng *rand.Rand, profile string) {
 	if profile == "runtime" {
 		on = rng.IntN(3) == 0
 	}
+	if profile == "vrf" { // VRF beacon support: sometimes with key manager nodes
+		on = rng.IntN(4) == 0
+	}
 	switch KeyManagerMode {
 	case "on":
 		on = true
